@@ -3,6 +3,10 @@ package main
 import (
 	"fmt"
 	"strings"
+	"sync"
+
+	ctok "github.com/pip-services3-gox/pip-services3-expressions-gox/calculator/tokenizers"
+	"github.com/pip-services3-gox/pip-services3-expressions-gox/tokenizers/generic"
 
 	"harness/sx"
 
@@ -92,7 +96,7 @@ func c13Lexemes(ctx *Ctx, kind int) []lexeme {
 			}
 		default:
 			if kind == 1 {
-				lx = lexeme{pick("+", "-", "*", "(", ")", "[", "]", ",", "=", "<", ">", "%", "^", "!", "@", "$", "/", "٣", "５", "日", "€"), tokenizers.Symbol, "symbol1"}
+				lx = lexeme{pick("+", "-", "*", "(", ")", "[", "]", ",", "=", "<", ">", "%", "^", "!", "@", "$", "/", "٣", "５", "日", "€", ".", "."), tokenizers.Symbol, "symbol1"}
 			} else {
 				lx = lexeme{pick("+", "*", "(", ")", "[", "]", ",", "=", "<", ">", "%", "^", "!", "@", "$", "/"), tokenizers.Symbol, "symbol1"}
 			}
@@ -150,7 +154,10 @@ func canFollow(kind int, a, b lexeme) bool {
 		if last == '/' && (first == '*' || first == '/') {
 			return false
 		}
-		if (last == '-' || last == '.') && digitish(first) {
+		if last == '.' { // a dot starts a number only in front of an ASCII digit
+			return !(first >= '0' && first <= '9')
+		}
+		if last == '-' && digitish(first) {
 			return false
 		}
 		if kind == 0 && last == '-' {
@@ -201,10 +208,45 @@ func genC13(ctx *Ctx) {
 	}
 }
 
+var c13Once sync.Once
+var c13Reconfigured string
+
+// probeReconfigured: "identifiers may start with any configured letter": a tokenizer whose table is configured again
+// (a later registration over a range above U+00FF) hands those characters to the newly configured state
+func probeReconfigured() string {
+	show := func(ts []*tokenizers.Token) string {
+		var sb strings.Builder
+		for _, t := range ts {
+			fmt.Fprintf(&sb, "(%d %s)", t.Type(), t.Value())
+		}
+		return sb.String()
+	}
+	e := ctok.NewExpressionTokenizer()
+	e.SetCharacterState(0x0400, 0x04ff, e.WordState())
+	if got, want := show(e.TokenizeBuffer("ключ+1")), fmt.Sprintf("(%d ключ)(%d +)(%d 1)(%d )", tokenizers.Word, tokenizers.Symbol, tokenizers.Integer, tokenizers.Eof); got != want {
+		return "an expression tokenizer with U+0400..U+04FF configured as letters tokenizes \"ключ+1\" as " + got
+	}
+	g := generic.NewGenericTokenizer()
+	g.SetCharacterState(0x2200, 0x22ff, g.SymbolState())
+	if got, want := show(g.TokenizeBuffer("∀x")), fmt.Sprintf("(%d ∀)(%d x)(%d )", tokenizers.Symbol, tokenizers.Word, tokenizers.Eof); got != want {
+		return "a generic tokenizer with U+2200..U+22FF configured as symbols tokenizes \"∀x\" as " + got
+	}
+	g2 := generic.NewGenericTokenizer()
+	g2.SetCharacterState(0x2200, 0x22ff, g2.SymbolState())
+	g2.SetCharacterState(0x2200, 0x2200, g2.WordState())
+	if got, want := show(g2.TokenizeBuffer("∀x ∁")), fmt.Sprintf("(%d ∀x)(%d  )(%d ∁)(%d )", tokenizers.Word, tokenizers.Whitespace, tokenizers.Symbol, tokenizers.Eof); got != want {
+		return "a generic tokenizer configured twice over U+2200 tokenizes \"∀x ∁\" as " + got
+	}
+	return ""
+}
+
 func runC13(in sx.SX) (sx.SX, string) {
 	l := sx.AsList(in)
-	obs, _ := runTok("none")(in)
-	fail := ""
+	obs, fail := runTok("none")(in)
+	c13Once.Do(func() { c13Reconfigured = probeReconfigured() })
+	if fail == "" {
+		fail = c13Reconfigured
+	}
 	got := sx.AsList(obs)
 	want := sx.AsList(l[4])
 	if len(got) != len(want)+1 {
